@@ -859,19 +859,37 @@ def evaluate__replace(self: XPathFunction, context: ta.ContextType = None) -> st
             msg = f"Regular expression {pattern!r} matches zero-length string"
             raise self.error('FORX0003', msg)
         elif q_flag:
-            # use replacement string as is (but inactivating escapes)
-            replacement = replacement.replace('\\', '\\\\')
-            input_string = input_string.replace('\\', '\\\\')
-            return re_pattern.sub(replacement, input_string).replace('\\\\', '\\')
+            # use replacement string as is
+            return re_pattern.sub(lambda m: replacement, input_string)
 
         elif Patterns.replacement.search(replacement) is None:
             raise self.error('FORX0004', f"Invalid replacement string {replacement!r}")
         else:
-            for g in range(re_pattern.groups, -1, -1):
-                if '$%d' % g in replacement:
-                    replacement = re.sub(r'(?<!\\)\$%d' % g, r'\\g<%d>' % g, replacement)
+            def expand(match: re.Match[str]) -> str:
+                chunks = []
+                k, length = 0, len(replacement)
+                while k < length:
+                    c = replacement[k]
+                    if c == '\\':
+                        chunks.append(replacement[k + 1])  # an escaped backslash or dollar sign
+                        k += 2
+                    elif c == '$':
+                        j = k + 1
+                        while j < length and replacement[j] in '0123456789':
+                            j += 1
+                        # $N refers to the longest prefix of the digits that is a group number:
+                        # further digits are literal, a single digit beyond the groups is empty.
+                        while j - k > 2 and int(replacement[k + 1:j]) > re_pattern.groups:
+                            j -= 1
+                        if int(replacement[k + 1:j]) <= re_pattern.groups:
+                            chunks.append(match.group(int(replacement[k + 1:j])) or '')
+                        k = j
+                    else:
+                        chunks.append(c)
+                        k += 1
+                return ''.join(chunks)
 
-            return re_pattern.sub(replacement, input_string).replace('\\$', '$')
+            return re_pattern.sub(expand, input_string)
 
 
 @method(function('tokenize', nargs=(1, 3),
